@@ -13,7 +13,7 @@
    The IP write model is the behaviour after fixes/C13-ip-put-listener-status-compare.patch;
    [write_unrepaired_refuted] keeps the witness for the code before it. *)
 From Coq Require Import List NArith ZArith Arith Bool Lia.
-From AHK Require Import Lib.Res Model.CharIO Model.CharIOEvents Proofs.CharIO Proofs.CharIOThm Proofs.CharIOEvents.
+From AHK Require Import Lib.Res Model.CharIO Model.CharIOEvents Model.CharIOParam Proofs.CharIO Proofs.CharIOThm Proofs.CharIOEvents Proofs.CharIOParam.
 Import ListNotations.
 
 (* ------------------------------------------------------------------ reads (IP) *)
@@ -316,6 +316,36 @@ Example c13_ble_events_nonvacuous :
   kcount (1%N, 10%N) (fst (ble_put perm (fun _ => true) items)) = 2.
 Proof. cbv zeta. vm_compute. repeat split. Qed.
 
+(* ------------------------------------------------------------------ values are carried, never inspected (round 8)
+   "the accessory's value" / "the new value": every modelled function commutes with an arbitrary
+   renaming f of values (Model/CharIOParam.v) - the value a listener is told / a read returns is
+   the one that was written / sent, whatever it is (0, false, null, "", a float, a list ...), and
+   no status, description, key or listener decision depends on it.  harness/c13.py hands values of
+   every JSON kind to the implementation and an integer code for each to the model. *)
+Theorem ip_put_value_parametric : forall f rd reqs r,
+    ip_put rd (vmap_reqs f reqs) r = rmap (vmap_wout f) (ip_put rd reqs r).
+Proof. exact (fun f => ip_put_gen_param_lem f rej_fixed). Qed.
+Theorem coap_put_value_parametric : forall f rd reqs rs,
+    coap_put rd (vmap_reqs f reqs) rs = rmap (vmap_wout f) (coap_put rd reqs rs).
+Proof. exact coap_put_param_lem. Qed.
+Theorem ble_put_value_parametric : forall f perm rd items,
+    ble_put perm rd (map (vmap_bitem f) items) = vmap_bout f (ble_put perm rd items).
+Proof. exact ble_put_param_lem. Qed.
+Theorem read_value_parametric : forall f g es req,
+    format_characteristic_list g (map (vmap_entry f) es) req =
+    dmap (vmap_rres f) (format_characteristic_list g es req).
+Proof. exact fcl_param_lem. Qed.
+Theorem coap_read_value_parametric : forall f ids rs,
+    coap_read ids (map (vmap_pdures f) rs) = rmap (dmap (vmap_rres f)) (coap_read ids rs).
+Proof. exact coap_read_param_lem. Qed.
+(* non-vacuity: a renaming that is not the identity, on a mixed 207 *)
+Example c13_value_parametric_nonvacuous :
+  let f := fun v => (v * 2 + 900)%Z in
+  ip_put (fun _ => true) (vmap_reqs f [((1%N, 10%N), 20%Z); ((1%N, 11%N), 21%Z)])
+         (W207 [Entry 1 10 (Some 0%Z) None; Entry 1 11 (Some 70410%Z) None]) =
+  Ok ([((1, 11)%N, (70410%Z, DCode (-70410)%Z)); ((1, 10)%N, (0%Z, DCode 0%Z))], [((1, 10)%N, 940%Z)]).
+Proof. exact param_example. Qed.
+
 Print Assumptions read_faithful.
 Print Assumptions ip_get_faithful.
 Print Assumptions read_nothing_invented.
@@ -348,3 +378,8 @@ Print Assumptions coap_listener_exactly_once.
 Print Assumptions ble_listener_exactly_once_in_order.
 Print Assumptions write_without_list_fails.
 Print Assumptions write_returns_only_with_verdicts.
+Print Assumptions ip_put_value_parametric.
+Print Assumptions coap_put_value_parametric.
+Print Assumptions ble_put_value_parametric.
+Print Assumptions read_value_parametric.
+Print Assumptions coap_read_value_parametric.
